@@ -1,10 +1,143 @@
 import Model.Common.Proto
+import Model.Common.Sha256
+import Model.Common.SipHash
+import Model.C17.CorePow
+import Model.C17.Merkle
+import Model.C17.Golomb
+import Model.C17.Bip158
+import Model.C17.CompactBlocks
+import Generated.Pow
 open Btc
 
-/-- line protocol of property C17: see harness/c17.py -/
+/-! line protocol of property C17: see harness/c17.py -/
+
+def splitComma (s : String) : List String :=
+  if s == "_" then [] else s.splitOn ","
+
+def natList? (s : String) : Option (List Nat) := (splitComma s).mapM (·.toNat?)
+def hexList? (s : String) : Option (List Bytes) := (splitComma s).mapM fromHex?
+
+def joinComma (l : List String) : String := if l.isEmpty then "_" else ",".intercalate l
+
+def b2s (b : Bool) : String := if b then "True" else "False"
+
+def hashOf (name : String) : Option (Bytes → Bytes) :=
+  if name == "h256" then some hash256
+  else if name == "sha256" then some sha256
+  else if name == "toy" then
+    -- a deliberately weak 32-byte "hash" (collisions are easy): xor-fold of the input into 32 bytes, +1
+    some fun b => (List.range 32).map fun i =>
+      ((List.range ((b.length + 31 - i) / 32)).foldl (fun acc k => acc ^^^ b.getD (i + 32 * k) 0) (UInt8.ofNat (i + 1)))
+  else none
+
+def renderBranch (r : Except Merkle.BranchErr Bytes) : String :=
+  match r with
+  | .ok v => s!"ok {toHex v}"
+  | .error e => s!"err {e.name}"
+
+def renderGcs (r : Except Golomb.Err (List Nat)) : String :=
+  match r with
+  | .ok vs => s!"ok {joinComma (vs.map toString)}"
+  | .error e => s!"err {e.name}"
+
 def handle : List String → String
-  -- one line per generated module this driver serves, e.g.
-  -- | "gen" :: "VarInt" :: fn :: args => (Gen.VarInt.dispatch fn args).getD "bad-op"
+  | "gen" :: "Pow" :: fn :: args => (Gen.Pow.dispatch fn args).getD "bad-op"
+  | "gen" :: "Filter" :: fn :: args => (Gen.Filter.dispatch fn args).getD "bad-op"
+  -- ---------------------------------------------------------------- proof of work (Core transcription)
+  | ["core.setcompact", n] =>
+    match n.toNat? with
+    | some n =>
+      let r := CorePow.setCompact n
+      if r.overflow then s!"ovf {b2s r.negative}" else s!"ok {r.value} {b2s r.negative}"
+    | none => "bad-op"
+  | ["core.getcompact", v] =>
+    match v.toNat? with
+    | some v => s!"ok {CorePow.getCompact v}"
+    | none => "bad-op"
+  | ["core.next", nBits, ts, limit] =>
+    match nBits.toNat?, parseInt? ts, limit.toNat? with
+    | some nBits, some ts, some limit =>
+      let a := CorePow.setCompact nBits
+      let l := CorePow.setCompact limit
+      if a.overflow || l.overflow then "err value"
+      else s!"ok {CorePow.calculateNextWorkRequired nBits ts l.value}"
+    | _, _, _ => "bad-op"
+  | ["core.work", nBits] =>
+    match nBits.toNat? with
+    | some nBits => let w := CorePow.getBlockProof nBits; if w == 0 then "err value" else s!"ok {w}"
+    | none => "bad-op"
+  -- ---------------------------------------------------------------- merkle
+  | ["mk.root", hf, leaves] =>
+    match hashOf hf, hexList? leaves with
+    | some H, some ls =>
+      match Merkle.rootAndMutated (fun a b => H (a ++ b)) ls with
+      | some (r, m) => s!"ok {toHex r} {b2s m}"
+      | none => "err empty"
+    | _, _ => "bad-op"
+  | ["mk.branch", hf, leaves, i] =>
+    match hashOf hf, hexList? leaves, i.toNat? with
+    | some H, some ls, some i =>
+      if i < ls.length then s!"ok {joinComma ((Merkle.branch (fun a b => H (a ++ b)) ls i).map toHex)}" else "err index"
+    | _, _, _ => "bad-op"
+  | ["mk.verify", hf, leaf, br, i] =>
+    match hashOf hf, fromHex? leaf, hexList? br, parseInt? i with
+    | some H, some leaf, some br, some i => renderBranch (Merkle.rootFromBranchBytes H leaf br i)
+    | _, _, _, _ => "bad-op"
+  -- ---------------------------------------------------------------- Golomb-Rice coded sets
+  | ["gcs.encode", p, vs] =>
+    match p.toNat?, natList? vs with
+    | some p, some vs => s!"ok {toHex (Golomb.encodeSet p vs)}"
+    | _, _ => "bad-op"
+  | ["gcs.decode", p, upper, n, data] =>
+    match p.toNat?, upper.toNat?, n.toNat?, fromHex? data with
+    | some p, some upper, some n, some data => renderGcs (Golomb.decodeSet p upper n data)
+    | _, _, _, _ => "bad-op"
+  | ["gcs.walk", ts, vs] =>
+    match natList? ts, natList? vs with
+    | some ts, some vs => (match Golomb.walk ts vs with | .hit => "hit" | .miss => "miss" | .ranOut => "ranout")
+    | _, _ => "bad-op"
+  | ["f.build", blockHash, outs, prevs] =>
+    match fromHex? blockHash, hexList? outs, hexList? prevs with
+    | some bh, some os, some ps =>
+      let f := Bip158.build bh os ps
+      s!"ok {f.1} {toHex f.2}"
+    | _, _, _ => "bad-op"
+  | ["f.hashes", blockHash, n, data] =>
+    match fromHex? blockHash, n.toNat?, fromHex? data with
+    | some _, some n, some data => renderGcs (Bip158.elementHashes n data)
+    | _, _, _ => "bad-op"
+  | ["f.match", blockHash, n, data, elems] =>
+    match fromHex? blockHash, n.toNat?, fromHex? data, hexList? elems with
+    | some bh, some n, some data, some es =>
+      match Bip158.matchAnyElems bh n data es with
+      | .ok b => s!"ok {b2s b}"
+      | .error e => s!"err {e.name}"
+    | _, _, _, _ => "bad-op"
+  | ["f.range", k0, k1, elem, upper] =>
+    match k0.toNat?, k1.toNat?, fromHex? elem, upper.toNat? with
+    | some k0, some k1, some e, some u => s!"ok {Bip158.hashToRange (UInt64.ofNat k0) (UInt64.ofNat k1) e u}"
+    | _, _, _, _ => "bad-op"
+  -- ---------------------------------------------------------------- compact blocks
+  | ["cb.shortid", k0, k1, wtxid] =>
+    match k0.toNat?, k1.toNat?, fromHex? wtxid with
+    | some k0, some k1, some w => s!"ok {CompactBlocks.shortId (UInt64.ofNat k0) (UInt64.ofNat k1) w}"
+    | _, _, _ => "bad-op"
+  | ["cb.reconstruct", prefilled, shortIds, pool] =>
+    -- prefilled: positions; shortIds: numbers; pool: `sid:wtxidTag` pairs (tag = a number naming the tx)
+    match natList? prefilled, natList? shortIds with
+    | some pre, some sids =>
+      let pool? := (splitComma pool).mapM fun s =>
+        match s.splitOn ":" with
+        | [a, b] => do let x ← a.toNat?; let y ← b.toNat?; pure (x, y)
+        | _ => none
+      match pool? with
+      | some pool =>
+        match CompactBlocks.reconstruct pre sids pool with
+        | .ok slots => "ok " ++ joinComma (slots.map fun
+            | .prefilled => "P" | .missing => "-" | .pool t => toString t)
+        | .error e => s!"err {e.name}"
+      | none => "bad-op"
+    | _, _ => "bad-op"
   | _ => "bad-op"
 
 def main : IO Unit := runLoop handle
